@@ -60,9 +60,36 @@ fn rename_env(env: &TypeEnv) -> (TypeEnv, BTreeMap<String, String>) {
     (e, tau)
 }
 
+fn compat_sources(out: &mut Out, line: &str, new_src: String, old_src: String) -> String {
+    let (n1, o1) = (new_src.clone(), old_src.clone());
+    let r = guarded(move || service_compatible(CandidSource::Text(&n1), CandidSource::Text(&o1)).is_ok());
+    let (n1, o1) = (new_src.clone(), old_src.clone());
+    let rep = guarded(move || {
+        service_compatibility_report(CandidSource::Text(&n1), CandidSource::Text(&o1)).map(|v| v.is_empty()).unwrap_or(false)
+    });
+    if rep != r {
+        out.oracle_failure("compatibility report empty != service_compatible ok", line);
+    }
+    let (n1, o1) = (new_src.clone(), old_src.clone());
+    let eq = guarded(move || service_equal(CandidSource::Text(&n1), CandidSource::Text(&o1)).is_ok());
+    if eq == Ok(true) && r != Ok(true) {
+        out.oracle_failure("service_equal holds but service_compatible fails", line);
+    }
+    b(r)
+}
+
 pub fn eval(out: &mut Out, op: &str, args: &[&str]) -> Option<String> {
     let env = sexp::to_env(&sexp::parse(args.first()?)?)?;
     match op {
+        "sub.compat2" => {
+            let t1 = sexp::to_ty(&sexp::parse(args.get(1)?)?)?;
+            let env2 = sexp::to_env(&sexp::parse(args.get(2)?)?)?;
+            let t2 = sexp::to_ty(&sexp::parse(args.get(3)?)?)?;
+            let line = args.join("\t");
+            let new_src = candid::pretty::candid::compile(&env, &Some(t1));
+            let old_src = candid::pretty::candid::compile(&env2, &Some(t2));
+            Some(compat_sources(out, &line, new_src, old_src))
+        }
         "sub.subtype" | "sub.equal" => {
             let t1 = sexp::to_ty(&sexp::parse(args.get(1)?)?)?;
             let t2 = sexp::to_ty(&sexp::parse(args.get(2)?)?)?;
@@ -140,21 +167,7 @@ pub fn eval(out: &mut Out, op: &str, args: &[&str]) -> Option<String> {
             let line = format!("{}\t{}\t{}", args[0], args[1], args[2]);
             let new_src = candid::pretty::candid::compile(&env, &Some(t1));
             let old_src = candid::pretty::candid::compile(&env, &Some(t2));
-            let (n1, o1) = (new_src.clone(), old_src.clone());
-            let r = guarded(move || service_compatible(CandidSource::Text(&n1), CandidSource::Text(&o1)).is_ok());
-            let (n1, o1) = (new_src.clone(), old_src.clone());
-            let rep = guarded(move || {
-                service_compatibility_report(CandidSource::Text(&n1), CandidSource::Text(&o1)).map(|v| v.is_empty()).unwrap_or(false)
-            });
-            if rep != r {
-                out.oracle_failure("compatibility report empty != service_compatible ok", &line);
-            }
-            let (n1, o1) = (new_src.clone(), old_src.clone());
-            let eq = guarded(move || service_equal(CandidSource::Text(&n1), CandidSource::Text(&o1)).is_ok());
-            if eq == Ok(true) && r != Ok(true) {
-                out.oracle_failure("service_equal holds but service_compatible fails", &line);
-            }
-            Some(b(r))
+            Some(compat_sources(out, &line, new_src, old_src))
         }
         _ => None,
     }
@@ -288,6 +301,80 @@ pub fn run(ctx: &mut Ctx) {
             // only environments whose definitions the printer/parser can carry: every name defined
             let e = sexp::env(&env);
             ctx.emit(&format!("sub.compat\t{e}\t{}\t{}", sexp::ty(&t1), sexp::ty(&t2)), t1 != t2);
+            // the old interface has its own environment: same names, some definitions changed
+            let mut env2 = TypeEnv::new();
+            for (k, t) in &env.0 {
+                let mut t = t.clone();
+                if ctx.rng.chance(1, 3) {
+                    let up = ctx.rng.chance(1, 2);
+                    t = gen::step(&mut ctx.rng, &gs, &t, up, 1);
+                    if matches!(t.as_ref(), TypeInner::Var(_)) {
+                        t = env.0[k].clone();
+                    }
+                }
+                if !ctx.rng.chance(1, 8) {
+                    env2.0.insert(k.clone(), t);
+                }
+            }
+            // keep env2 closed: drop-outs are re-added unchanged when referenced
+            for (k, t) in &env.0 {
+                env2.0.entry(k.clone()).or_insert_with(|| t.clone());
+            }
+            // make the services use the definitions
+            let wrap = |s: &Type, names: &[String], rng: &mut crate::Rng| -> Type {
+                if let TypeInner::Service(ms) = s.as_ref() {
+                    let mut ms = ms.clone();
+                    if !names.is_empty() {
+                        let n = rng.pick(names).clone();
+                        let f = candid::types::Function { modes: vec![], args: vec![], rets: vec![TypeInner::Var(n).into()] };
+                        if !ms.iter().any(|m| m.0 == "zz") {
+                            ms.push(("zz".to_string(), TypeInner::Func(f).into()));
+                        }
+                    }
+                    TypeInner::Service(ms).into()
+                } else {
+                    s.clone()
+                }
+            };
+            // single changed definition, reached (if at all) through other definitions
+            if !g.names.is_empty() {
+                let j = ctx.rng.pick(&g.names).clone();
+                let i = ctx.rng.pick(&g.names).clone();
+                let mut env3 = env.clone();
+                let changed: Type = match env.0[&j].as_ref() {
+                    TypeInner::Text => TypeInner::Nat.into(),
+                    TypeInner::Record(fs) => {
+                        let mut fs = fs.clone();
+                        fs.push(Field { id: candid::types::Label::Id(77).into(), ty: TypeInner::Text.into() });
+                        fs.sort_unstable_by_key(|f| f.id.get_id());
+                        TypeInner::Record(fs).into()
+                    }
+                    _ => TypeInner::Text.into(),
+                };
+                env3.0.insert(j, changed);
+                let svc: Type = TypeInner::Service(vec![(
+                    "zz".to_string(),
+                    TypeInner::Func(candid::types::Function {
+                        modes: vec![],
+                        args: vec![],
+                        rets: vec![TypeInner::Var(i).into()],
+                    })
+                    .into(),
+                )])
+                .into();
+                let (s1, s2) = (sexp::ty(&svc), sexp::env(&env3));
+                ctx.emit(&format!("sub.compat2\t{e}\t{s1}\t{s2}\t{s1}"), true);
+                ctx.emit(&format!("sub.compat2\t{s2}\t{s1}\t{e}\t{s1}"), true);
+            }
+            let names = g.names.clone();
+            let mut r2 = crate::Rng(ctx.rng.next());
+            let mut r3 = crate::Rng(r2.0);
+            let n1 = wrap(&t1, &names, &mut r2);
+            let n2 = wrap(&t2, &names, &mut r3);
+            ctx.emit(
+                &format!("sub.compat2\t{e}\t{}\t{}\t{}", sexp::ty(&n1), sexp::env(&env2), sexp::ty(&n2)),
+                true,
+            );
             ctx.emit(&format!("sub.subtype\t{e}\t{}\t{}", sexp::ty(&t1), sexp::ty(&t2)), t1 != t2);
         }
     }
